@@ -254,7 +254,9 @@ def gen_case(r, version):
                     break
                 ops.append(["collide_rename", i, nm, "rename_same_type" if src.rt == tgt.rt else "rename_cross_type"])
         elif x < 0.6 and named:
-            i = gen.choice(r, named)
+            mentioned = set(m_[0] for x_ in st_.model.recs for m_ in M.mentions(x_))
+            pref = [j for j in named if M.name_of(st_.model.recs[j]) in mentioned]
+            i = gen.choice(r, pref) if pref and gen.chance(r, 0.7) else gen.choice(r, named)
             rec = st_.model.recs[i]
             pool = [n for n in INT_NAMES + H.FRESH[:6] + H.POOL.get(rec.rt if rec.rt in H.POOL else "S", []) if n not in names
                     and n not in st_.model.undefined_mentions()]
@@ -297,6 +299,6 @@ def st_case(version):
 
 
 def parts(tier):
-    n = 150 if tier == "quick" else 800
+    n = 220 if tier == "quick" else 800
     return [Part("gfa1", prop, strategy=st_case("gfa1"), n=n, quick_shards=2),
             Part("gfa2", prop, strategy=st_case("gfa2"), n=n, quick_shards=2)]
